@@ -9,6 +9,20 @@ def export_graph(work, depth, trailing, rep, label):
                  consts={"Alphabet": "0..255", "MaxDepth": str(depth), "Trailing": "TRUE" if trailing else "FALSE"},
                  to_file=out, timeout=1800, heap="12g")
     rep.add_tlc(r, "JsonRef depth=%d trailing=%s" % (depth, trailing))
+    return _table(work, out, label)
+
+
+def export_schema_graph(work, depth, rdepth, rep, label):
+    """Reference automaton of the schema notation (spec/SchemaText.tla explored by SchemaRef.tla)."""
+    out = work.path("sref-%s.txt" % label)
+    r = vlib.tlc(work, "SchemaRef", "SchemaRef.cfg",
+                 consts={"Alphabet": "0..255", "MaxDepth": str(depth), "MaxRDepth": str(rdepth)},
+                 to_file=out, timeout=3000, heap="12g")
+    rep.add_tlc(r, "SchemaRef depth=%d rules depth=%d" % (depth, rdepth))
+    return _table(work, out, "s" + label)
+
+
+def _table(work, out, label):
     ids, verdict, delta = {}, [], []
 
     def sid(name):
